@@ -182,7 +182,7 @@ class Run:
         return complete
 
     def _absorb(self, r: dict, layer: str):
-        self.evaluations += 1
+        self.evaluations += int(r.get("evals", 1))
         if "harness_error" in r:
             self.harness_errors.append({"layer": layer, "case": r["_case"], "error": r["harness_error"]})
             return
@@ -196,9 +196,12 @@ class Run:
             self.add_violation(v.get("klass"), v.get("detail", ""), r["_case"], v.get("sig"), layer)
 
     def add_violation(self, klass, detail, case, sig=None, layer=""):
-        if klass is not None and klass in self.known_keys:
-            e = self.known_seen.setdefault(klass, {"count": 0, "example": case, "detail": detail})
-            e["count"] += 1
+        # a violation completely explained by several listed mechanisms carries "a+b"
+        parts = klass.split("+") if klass else []
+        if parts and all(p in self.known_keys for p in parts):
+            for p in parts:
+                e = self.known_seen.setdefault(p, {"count": 0, "example": case, "detail": detail})
+                e["count"] += 1
             return
         sig = sig or klass or hashlib.md5(detail.encode()).hexdigest()[:10]
         e = self.viol.get(sig)
